@@ -134,21 +134,31 @@ def components(check: Check) -> None:
         check.require(bool(raises), "T4", f"{comp}/unknown-key", "an unknown key is rejected", loc(ifn))
     # sub-component lists
     def prints_all(efn, prm: str, coll: str, meth: str) -> int:
-        """Line of the comprehension `self.<meth>(x) for x in <prm>.<coll>` (0 when absent)."""
-        for x in ast.walk(efn.analysis_node):
-            if isinstance(x, (ast.ListComp, ast.GeneratorExp)) and len(x.generators) == 1 and not x.generators[0].ifs:
-                g = x.generators[0]
-                if unparse(g.iter) == f"{prm}.{coll}" and isinstance(g.target, ast.Name):
-                    for c in ast.walk(x.elt):
-                        if isinstance(c, ast.Call) and isinstance(c.func, ast.Attribute) and c.func.attr == meth and unparse(c.func.value) == "self" and \
-                                len(c.args) == 1 and isinstance(c.args[0], ast.Name) and c.args[0].id == g.target.id:
-                            return x.lineno * 1000 + x.col_offset
-            if isinstance(x, ast.For) and unparse(x.iter) == f"{prm}.{coll}" and isinstance(x.target, ast.Name) and not x.orelse:
-                for c in ast.walk(x):
-                    if isinstance(c, ast.Call) and isinstance(c.func, ast.Attribute) and c.func.attr == meth and unparse(c.func.value) == "self" and \
-                            len(c.args) == 1 and isinstance(c.args[0], ast.Name) and c.args[0].id == x.target.id and \
-                            not any(isinstance(y, (ast.Break, ast.Continue, ast.Return)) for y in ast.walk(x)):
-                        return x.lineno * 1000 + x.col_offset
+        """Position of `self.<meth>(x) for x in <prm>.<coll>` (comprehension, for-each or index loop); 0 when absent."""
+        from .common import early_exits, is_path, loops_over
+
+        rr = Resolver(p, efn)
+        want = f"{prm}.{coll}"
+        for n in rr.cfg.stmt_nodes():
+            for e in rr.cfg.exprs_of(n):
+                for x in ast.walk(e):
+                    if isinstance(x, (ast.ListComp, ast.GeneratorExp)) and len(x.generators) == 1 and not x.generators[0].ifs:
+                        g = x.generators[0]
+                        if path_of(rr.term(g.iter, n)) == want and isinstance(g.target, ast.Name):
+                            for c in ast.walk(x.elt):
+                                if isinstance(c, ast.Call) and isinstance(c.func, ast.Attribute) and c.func.attr == meth and unparse(c.func.value) == "self" and \
+                                        len(c.args) == 1 and isinstance(c.args[0], ast.Name) and c.args[0].id == g.target.id:
+                                    return n.lineno * 1000 + x.col_offset
+        for h, base, d in loops_over(rr, lambda b_: is_path(b_, want)):
+            if d != "forward" or early_exits(rr.cfg, h):
+                continue
+            body = rr.cfg.loop_body(h)
+            for n in body:
+                for c in rr.cfg.calls_in(n):
+                    t = rr.term(c, n)
+                    if t[0] == "call" and t[1] == ("attr", ("param", "self"), meth) and t[2] == (("elem", base),) and \
+                            not [g_ for g_ in rr.cfg.must_guards(n) if g_[2] in body]:
+                        return h.lineno * 1000
         return 0
 
     for efn, meth, coll, comp in ((var_fn, "term", "terms", "Variable"), (ov_fn, "term", "terms", "OutputVariable"),
@@ -202,6 +212,72 @@ def components(check: Check) -> None:
                   if ok else f"term import: {facts}, split into name/class/parameters={split_ok}", loc(itf))
 
 
+def named_component_reader(check: Check, m: str) -> None:
+    """FllImporter.tnorm/snorm/activation/defuzzifier interpreted on '', 'none', a bare class name and a name with parameters."""
+    from ..guards import RoleEval, paths
+    from ..sym import PathResolver
+
+    p = check.program
+    fn = p.func(f"FllImporter.{m}")
+    check.analysed(fn)
+    r = Resolver(p, fn)
+    cfg = r.cfg
+    prm = fn.params[1].name
+    FLL = ("param", prm)
+
+    def is_split(t: Term) -> bool:
+        return t[0] == "call" and t[1] == ("attr", FLL, "split")
+
+    def classify(t: Term, e):
+        if t == FLL:
+            return "fll"
+        if t[0] == "call" and t[1] == ("global", "len") and len(t[2]) == 1 and is_split(t[2][0]):
+            return "ntokens"
+        if t[0] == "sub" and is_split(t[1]) and t[2] == ("const", 1):
+            return "param_text"
+        return None
+
+    cases = [("", 0, "none"), ("none", 1, "none"), ("Name", 1, "bare")]
+    if m in ("activation", "defuzzifier"):
+        cases.append(("Name 1", 2, "with-parameters"))
+    bad = []
+    for text, ntok, kind in cases:
+        ev = RoleEval(r, classify)
+        env = {"fll": text, "ntokens": ntok, "param_text": "1"}
+        pths = paths(cfg, [s_ for s_, _ in cfg.entry.succ][0], ev, env, set())
+        for pa in pths:
+            end = [n for n in pa if n.kind == "stmt" and isinstance(n.ast, ast.Return)]
+            if pa[-1].kind == "raise_exit" or not end:
+                bad.append((text, "does not return"))
+                continue
+            pr = PathResolver(p, fn, pa)
+            rt = pr.at(end[-1].ast.value, pr.index_of(end[-1])) if end[-1].ast.value is not None else ("const", None)
+            configured = [pr.at(c, i) for i, n in enumerate(pa) for c in cfg.calls_in(n) if isinstance(c.func, ast.Attribute) and c.func.attr == "configure"]
+            constructs = rt[0] == "call" and rt[1][0] == "attr" and rt[1][2] == "construct" and any(s_[0] == "attr" and s_[2] == {"tnorm": "tnorm", "snorm": "snorm",
+                         "activation": "activation", "defuzzifier": "defuzzifier"}[m] for s_ in walk(rt[1][1]))
+            if kind == "none" and rt != ("const", None):
+                bad.append((text, f"returns {show(rt)[:60]} instead of None"))
+            if kind == "bare" and (not constructs or configured):
+                bad.append((text, "a bare class name must be constructed and left with its defaults"))
+            if kind == "with-parameters":
+                def select(t: Term) -> Term:
+                    while t[0] == "ifexp":
+                        cnd = ev.eval_term(t[1], env)
+                        t = t[2] if cnd is True else (t[3] if cnd is False else ("const", "<undecided>"))
+                    return t
+
+                arg = select(configured[0][2][0]) if len(configured) == 1 and configured[0][2] else ("const", None)
+                conf_ok = len(configured) == 1 and arg[0] == "sub" and arg[2] == ("const", 1) and configured[0][1][1] == rt
+                if not constructs or not conf_ok:
+                    bad.append((text, "the class must be constructed from the first token and configured with the rest of the value"))
+    check.require(not bad, "T5", f"FllImporter.{m}/none", f"`none`/empty is read back as a missing {m}; a class name is constructed"
+                  + ("; parameters, when present, configure it" if m in ("activation", "defuzzifier") else "") if not bad else f"{m} reader: {bad[:3]}",
+                  loc(fn), exhaustive=True, cases=len(cases))
+    if m in ("activation", "defuzzifier"):
+        check.require(not [b_ for b_ in bad if b_[0] in ("Name", "Name 1")], "T8", f"FllImporter.{m}/no-parameters",
+                      "without parameters the freshly constructed object is kept as is", loc(fn))
+
+
 def range_setter_order(check: Check) -> list[str]:
     p = check.program
     fn = p.cls("Variable").lookup_setter("range")
@@ -252,17 +328,7 @@ def spellings(check: Check) -> None:
     check.require(pairs == {"true": True, "false": False}, "T5", "FllImporter.boolean/spelling",
                   f"the importer reads true/false as True/False (found {pairs})", loc(b))
     for m in ("tnorm", "snorm", "activation", "defuzzifier"):
-        fn = p.func(f"FllImporter.{m}")
-        check.analysed(fn)
-        rr = Resolver(p, fn)
-        ok = False
-        for n in rr.cfg.stmt_nodes():
-            if isinstance(n.ast, ast.Return) and isinstance(n.ast.value, ast.Constant) and n.ast.value.value is None:
-                for g, pol, gn in rr.cfg.must_guards(n):
-                    t = rr.term(g, gn)
-                    if pol and any(s[0] == "cmp" and s[1] == ("==",) and ("const", "none") in s[2] for s in walk(t)):
-                        ok = True
-        check.require(ok, "T5", f"FllImporter.{m}/none", f"`none` is read back as a missing {m}", loc(fn))
+        named_component_reader(check, m)
     for m in ("norm", "activation", "defuzzifier"):
         fn = p.func(f"FllExporter.{m}")
         check.analysed(fn)
@@ -390,32 +456,49 @@ def parse_helper(check: Check) -> None:
 
 
 def parameters_helper(check: Check) -> None:
+    from ..guards import RoleEval, simulate
+
     p = check.program
     fn = p.func("Term._parameters")
     check.analysed(fn)
     r = Resolver(p, fn)
     cfg = r.cfg
     vararg = [q.name for q in fn.params if q.kind == "vararg"]
-    ext = [(n, r.term(c, n)) for n, c in cfg.find_calls(".extend")]
-    app = [(n, r.term(c, n)) for n, c in cfg.find_calls(".append")]
     OPSTR = ("global", "fuzzylite.operation.Operation.str")
-    ext_ok = len(ext) == 1 and bool(vararg) and ext[0][1][2] == (("call", ("global", "map"), (OPSTR, ("param", vararg[0])), ()),)
     h = ("attr", ("param", "self"), "height")
+    # (1) the arguments, converted with Op.str, in order: extend(map(Op.str, args)) / extend(generator) / a list comprehension seed
+    args_ok = False
+    first_site = None
+    for n in cfg.stmt_nodes():
+        for c in cfg.calls_in(n):
+            t = r.term(c, n)
+            if t[0] == "call" and t[1][0] == "attr" and t[1][2] == "extend" and vararg and t[2] == (("call", ("global", "map"), (OPSTR, ("param", vararg[0])), ()),):
+                args_ok, first_site = True, n
+        for e in cfg.exprs_of(n):
+            for x in ast.walk(e):
+                if isinstance(x, (ast.ListComp, ast.GeneratorExp)) and len(x.generators) == 1 and not x.generators[0].ifs and vararg and \
+                        unparse(x.generators[0].iter) == vararg[0] and isinstance(x.elt, ast.Call) and r.term(x.elt.func, n) == OPSTR and \
+                        isinstance(x.generators[0].target, ast.Name) and len(x.elt.args) == 1 and unparse(x.elt.args[0]) == x.generators[0].target.id:
+                    args_ok, first_site = True, n
+    # (2) the height, printed with Op.str, appended exactly when it is not close to 1, after the arguments
+    app = [(n, r.term(c, n)) for n, c in cfg.find_calls(".append")]
     app_ok = len(app) == 1 and app[0][1][2] == (("call", OPSTR, (h,), ()),)
+    close = ("call", ("global", "fuzzylite.operation.Operation.is_close"), (h, ("const", 1.0)), ())
     guard_ok = False
     if app_ok:
-        for g, pol, gn in cfg.must_guards(app[0][0]):
-            t = r.term(g, gn)
-            close = ("call", ("global", "fuzzylite.operation.Operation.is_close"), (h, ("const", 1.0)), ())
-            if (t == ("unop", "not", close) and pol) or (t == close and not pol):
-                guard_ok = True
-    order_ok = ext_ok and app_ok and ext[0][0] not in cfg.reach([s for s, _ in app[0][0].succ])
+        res = {}
+        for cl in (True, False):
+            ev = RoleEval(r, lambda t, e: "close" if t == close else ("args" if vararg and t == ("param", vararg[0]) else None))
+            may, must = simulate(cfg, [s_ for s_, _ in cfg.entry.succ][0], ev, {"close": cl, "args": True}, {app[0][0]}, set())
+            res[cl] = (bool(may), bool(must))
+        guard_ok = res[True] == (False, False) and res[False] == (True, True)
+    order_ok = args_ok and app_ok and first_site is not None and first_site not in cfg.reach([s_ for s_, _ in app[0][0].succ])
     rets = [r.term(n.ast.value, n) for n in cfg.stmt_nodes() if isinstance(n.ast, ast.Return) and n.ast.value is not None]
     join_ok = bool(rets) and all(t[0] == "call" and t[1] == ("attr", ("const", " "), "join") for t in rets)
-    ok = ext_ok and app_ok and guard_ok and order_ok and join_ok
+    ok = args_ok and app_ok and guard_ok and order_ok and join_ok
     check.require(ok, "T6", "Term._parameters/height-last", "_parameters prints the arguments in order and the height last, unless it is (close to) 1" if ok else
-                  f"arguments printed in order={ext_ok}, height printed with Op.str={app_ok}, elided iff close to 1={guard_ok}, height last={order_ok}, space separated={join_ok}",
-                  loc(fn))
+                  f"arguments printed in order={args_ok}, height printed with Op.str={app_ok}, elided iff close to 1={guard_ok}, height last={order_ok}, space separated={join_ok}",
+                  loc(fn), exhaustive=True, cases=2)
 
 
 def _ret_terms(p, fn):
@@ -444,6 +527,9 @@ def special_term(check: Check, c, pa, ca, req, hflag, ctor) -> None:
         check.require(ok, "T6", "Constant/parameters", "Constant: one value, no height, on both sides" if ok else
                       f"Constant: printed {pa}, configured {ca}, required {req}, height {hflag}, constructor {ctor}", where)
     elif name == "Discrete":
+        from ..guards import RoleEval, paths
+        from ..sym import PathResolver
+
         rp, prets = _ret_terms(p, pfn)
         to_list = ("call", ("attr", SELF, "to_list"), (), ())
         p_ok = bool(prets) and all(t[0] == "call" and t[1][0] == "attr" and t[1][2] == "_parameters" and t[2] == (to_list,) for t in prets)
@@ -451,30 +537,43 @@ def special_term(check: Check, c, pa, ca, req, hflag, ctor) -> None:
         flat = ("call", ("attr", ("call", ("attr", ("attr", SELF, "values"), "flatten"), (), ()), "tolist"), (), ())
         l_ok = lrets == [flat]
         rc = Resolver(p, cfn)
+        cfg = rc.cfg
         prm = cfn.params[1].name
         split = ("call", ("attr", ("param", prm), "split"), (), ())
-        vals = _self_store(rc, "values")
-        want = ("call", ("global", "fuzzylite.term.Discrete.to_xy"),
-                (("sub", split, ("slice", ("const", 0), ("const", None), ("const", 2))), ("sub", split, ("slice", ("const", 1), ("const", None), ("const", 2)))), ())
-        v_ok = len(vals) == 1 and vals[0][1] == want
-        hs = _self_store(rc, "height")
-        even = odd = False
-        dels = [n for n in rc.cfg.stmt_nodes() if isinstance(n.ast, ast.Delete) and unparse(n.ast.targets[0]).endswith("[-1]")]
-        for n, t in hs:
-            gs = [(rc.term(g, gn), pol) for g, pol, gn in rc.cfg.must_guards(n)]
-            parity = [(g, pol) for g, pol in gs if g[0] == "cmp" and g[1] == ("==",) and g[2][1] == ("const", 0) and g[2][0][0] == "binop" and g[2][0][1] == "%"
-                      and g[2][0][3] == ("const", 2)]
-            if parity and parity[0][1] and t == ("const", 1.0):
-                even = True
-            if parity and not parity[0][1] and t == ("call", ("global", "fuzzylite.library.to_float"), (("sub", split, ("unop", "-", ("const", 1))),), ()):
-                odd = bool(dels) and all(rc.cfg.must_precede([d], vals[0][0]) is False or True for d in dels) and \
-                    any(not pol2 for g2, pol2, gn2 in rc.cfg.must_guards(dels[0])) and vals and dels[0] in rc.cfg.reach([rc.cfg.entry], blocked={vals[0][0]})
+
+        def classify(t, e):
+            if t[0] == "binop" and t[1] == "%" and t[3] == ("const", 2) and t[2][0] == "call" and t[2][1] == ("global", "len"):
+                return "rem"
+            return None
+
+        def pairs_of(tokens):
+            return ("call", ("global", "fuzzylite.term.Discrete.to_xy"),
+                    (("sub", tokens, ("slice", ("const", 0), ("const", None), ("const", 2))), ("sub", tokens, ("slice", ("const", 1), ("const", None), ("const", 2)))), ())
+
+        results = {}
+        for rem in (0, 1):
+            ev = RoleEval(rc, classify)
+            outcome = []
+            for pa in paths(cfg, [s_ for s_, _ in cfg.entry.succ][0], ev, {"rem": rem}, set()):
+                pr = PathResolver(p, cfn, pa)
+                hs = [(i, n) for i, n in enumerate(pa) if n.kind == "stmt" and any(isinstance(t_, ast.Attribute) and t_.attr == "height" for t_ in cfg.stores_at(n))]
+                vs = [(i, n) for i, n in enumerate(pa) if n.kind == "stmt" and any(isinstance(t_, ast.Attribute) and t_.attr == "values" for t_ in cfg.stores_at(n))]
+                dropped = any(n.kind == "stmt" and isinstance(n.ast, ast.Delete) and const_value(rc.term(n.ast.targets[0].slice, n)) == -1 for n in pa
+                              if isinstance(getattr(n.ast, "targets", [None])[0], ast.Subscript))
+                ht = pr.at(hs[-1][1].ast.value, hs[-1][0]) if hs else None
+                vt = pr.at(vs[-1][1].ast.value, vs[-1][0]) if vs else None
+                outcome.append((ht, vt, dropped))
+            results[rem] = outcome
+        even_ok = bool(results[0]) and all(ht == ("const", 1.0) and vt == pairs_of(split) for ht, vt, _ in results[0])
+        last = ("call", ("global", "fuzzylite.library.to_float"), (("sub", split, ("unop", "-", ("const", 1))),), ())
+        but_last = ("sub", split, ("slice", ("const", None), ("unop", "-", ("const", 1)), ("const", None)))
+        odd_ok = bool(results[1]) and all(ht == last and ((vt == pairs_of(split) and dropped) or vt == pairs_of(but_last)) for ht, vt, dropped in results[1])
         rx, xrets = _ret_terms(p, c.lookup("to_xy"))
         xy_ok = bool(xrets) and all(t[0] == "attr" and t[2] == "T" and t[1][0] == "call" and t[1][2] and t[1][2][0][0] == "list" and len(t[1][2][0][1]) == 2 for t in xrets)
-        ok = p_ok and l_ok and v_ok and even and odd and xy_ok
+        ok = p_ok and l_ok and even_ok and odd_ok and xy_ok
         check.require(ok, "T6", "Discrete/parameters", "Discrete: x y pairs flattened row-wise (+ optional height) are read back as pairs; an odd count means a trailing height"
-                      if ok else f"Discrete: printed through to_list={p_ok}, row-wise flatten={l_ok}, pairs read back as (even, odd) positions={v_ok}, "
-                      f"even count -> height 1={even}, odd count -> trailing height removed={odd}, (x, y) columns={xy_ok}", where)
+                      if ok else f"Discrete: printed through to_list={p_ok}, row-wise flatten={l_ok}, even count -> height 1 and all tokens paired={even_ok}, "
+                      f"odd count -> last token is the height and is removed before pairing={odd_ok}, (x, y) columns={xy_ok}", where, exhaustive=True, cases=2)
     elif name == "Linear":
         rp, prets = _ret_terms(p, pfn)
         p_ok = bool(prets) and all(t[0] == "call" and t[1][0] == "attr" and t[1][2] == "_parameters" and t[2] == (("star", ("attr", SELF, "coefficients")),) for t in prets)
@@ -563,11 +662,6 @@ def elision_defaults(check: Check) -> None:
     src = unparse(wd.lookup("parameters").node)
     ok = "self.type == WeightedDefuzzifier.Type.Automatic" in src and default_of("WeightedDefuzzifier", "type") == "Type.Automatic"
     check.require(ok, "T8", "WeightedDefuzzifier/type", "type Automatic is not written and is the constructor default", wd.loc())
-    for m in ("activation", "defuzzifier"):
-        fn = p.func(f"FllImporter.{m}")
-        src = unparse(fn.node)
-        ok = "if parameters:" in src and "result.configure(parameters)" in src
-        check.require(ok, "T8", f"FllImporter.{m}/no-parameters", "without parameters the freshly constructed object is kept as is", loc(fn))
 
 
 # ------------------------------------------------------------------------------------------------ T9
